@@ -3103,6 +3103,8 @@ func runC17(c *Ctx) {
 		// shared with C14: the candidates are computed without goroutines of their own or state kept between calls (R14.5)
 		borrowRules(c, []string{"R13.4"}, runC13)
 		checkV1SharedWrites(c, p)
+		// ... and candidates computed by goroutines are not collected in the order in which the goroutines finish (R14.12)
+		checkCompletionOrder(c, p)
 	}
 	tkPkg := ssPkg + "/tokenizer"
 	tk := p.Func(tkPkg, "Tokenize")
@@ -4503,7 +4505,11 @@ func checkTruncationOrder(c *Ctx, p *core.Prog) {
 			}
 		}
 	}
-	c.R.RequireMin("R01.8", "lists cut at the first element below a bound", n, 1)
+	// (no floor: the cut can be written in other ways - a counting loop and one re-slice behind it; then there is nothing
+	// this rule recognises, and it says so)
+	if n == 0 {
+		c.R.Info("R01.8", "v2: lists cut at the first element below a bound", v2pkg, "none found in the shape `for i, m := range l { if m.F < bound { ... l[:i] ... } }`: not decided")
+	}
 }
 
 // producerSortedBy: the slice v was, in the function that made it, sorted with first key `field` descending, and not
@@ -4624,23 +4630,24 @@ func checkLineStringifier(c *Ctx, p *core.Prog) {
 	// R06.15
 	var clean *ssa.Function
 	nC := 0
-	for _, call := range core.CallsIn(sf) {
-		cal := call.Common().StaticCallee()
+	isCleanup := func(cal *ssa.Function) bool {
 		if cal == nil || core.FuncPkgPath(cal) != v2pkg || len(cal.Params) < 2 {
-			continue
+			return false
 		}
 		// the clean-up: (position int, word string, ...) string
-		if bt, ok := cal.Params[0].Type().Underlying().(*types.Basic); !ok || bt.Kind() != types.Int || !isString(cal.Params[1].Type()) {
-			continue
-		}
-		clean = cal
-		nC++
+		bt, ok := cal.Params[0].Type().Underlying().(*types.Basic)
+		return ok && bt.Kind() == types.Int && isString(cal.Params[1].Type()) && cal.Signature.Results().Len() == 1 && isString(cal.Signature.Results().At(0).Type())
+	}
+	intOffsets := func(f *ssa.Function) []*ssa.Parameter {
 		var offs []*ssa.Parameter
-		for i, prm := range sf.Params {
-			if bt, ok := prm.Type().Underlying().(*types.Basic); ok && bt.Kind() == types.Int && !isLineParam(sf, i, 0) {
+		for i, prm := range f.Params {
+			if bt, ok := prm.Type().Underlying().(*types.Basic); ok && bt.Kind() == types.Int && !isLineParam(f, i, 0) {
 				offs = append(offs, prm)
 			}
 		}
+		return offs
+	}
+	dependsOn := func(v ssa.Value, roots []*ssa.Parameter) bool {
 		dep := false
 		seen := map[ssa.Value]bool{}
 		var walk func(v ssa.Value)
@@ -4649,7 +4656,7 @@ func checkLineStringifier(c *Ctx, p *core.Prog) {
 				return
 			}
 			seen[v] = true
-			for _, o := range offs {
+			for _, o := range roots {
 				if v == ssa.Value(o) {
 					dep = true
 				}
@@ -4660,9 +4667,45 @@ func checkLineStringifier(c *Ctx, p *core.Prog) {
 				}
 			}
 		}
-		walk(call.Common().Args[0])
-		c.R.Check(dep && len(offs) > 0, "R06.15", sf.Name()+": the position given to "+cal.Name()+" includes the offset of the words handed over before", p.Pos(call.Pos()),
-			"the position is computed from the offset parameter", "the position given to the word clean-up does not include the offset of the words already handed over from this line: the word behind the remainder of a hyphenated word is taken for the first word of its line, and dropped if it looks like a list marker")
+		walk(v)
+		return dep
+	}
+	const r15bad = "the position given to the word clean-up does not include the offset of the words already handed over from this line: the word behind the remainder of a hyphenated word is taken for the first word of its line, and dropped if it looks like a list marker"
+	for _, call := range core.CallsIn(sf) {
+		cal := call.Common().StaticCallee()
+		if isCleanup(cal) {
+			clean = cal
+			nC++
+			offs := intOffsets(sf)
+			c.R.Check(len(offs) > 0 && dependsOn(call.Common().Args[0], offs), "R06.15", sf.Name()+": the position given to "+cal.Name()+" includes the offset of the words handed over before", p.Pos(call.Pos()),
+				"the position is computed from the offset parameter", r15bad)
+			continue
+		}
+		// a helper of the stringifier that cleans the words of the line: the position it computes includes the offset it
+		// is handed, and it is handed the stringifier's offset
+		if cal == nil || core.FuncPkgPath(cal) != v2pkg || len(cal.Blocks) == 0 {
+			continue
+		}
+		for _, inner := range core.CallsIn(cal) {
+			ic := inner.Common().StaticCallee()
+			if !isCleanup(ic) {
+				continue
+			}
+			clean = ic
+			nC++
+			hOffs := intOffsets(cal)
+			okH := len(hOffs) > 0 && dependsOn(inner.Common().Args[0], hOffs)
+			okS := false
+			for k, q := range cal.Params {
+				for _, ho := range hOffs {
+					if q == ho && k < len(call.Common().Args) && dependsOn(inner.Common().Args[0], []*ssa.Parameter{ho}) && dependsOn(call.Common().Args[k], intOffsets(sf)) {
+						okS = true
+					}
+				}
+			}
+			c.R.Check(okH && okS, "R06.15", sf.Name()+": the position given to "+ic.Name()+" (in "+cal.Name()+") includes the offset of the words handed over before", p.Pos(inner.Pos()),
+				"the helper computes the position from its offset parameter, which is handed the stringifier's offset", r15bad)
+		}
 	}
 	_ = clean
 	c.R.RequireMin("R06.15", "calls of the word clean-up in the line stringifier", nC, 1)
